@@ -81,14 +81,15 @@ def run(ctx):
     ctx.cov["behaviours_generated"] = len(stim)
     ctx.cov["events_validated"] = sum(len(t["ev"]) for t in hist)
     ctx.cov["events_settled_as_predicted"] = sum(1 for t in hist for e in t["ev"] if e["settled"])
+    ctx.cov["cancellation_storm_rounds"] = sum(c.get("rounds", 0) for c in connrecs)
     ctx.cov["connection_configurations"] = [[c["transport"], c["l"], c["el"], c["maxTotal"], c["maxPerPath"]] for c in connrecs]
     for clause, idxs in sorted(bad.items()):
         ts = [traces[i] for i in idxs]
-        if clause == "C16_ConnLimits":
+        if clause in ("C16_ConnLimits", "C16_ConnIdleAtEnd"):
             for c in ts:
                 vf.report(ctx, clause, {"transport": c["transport"], "l": c["l"], "el": c["el"]},
-                          "a real %s client connection configured with total limit %d / per-endpoint limit %d had %d requests on the wire at once (%d for one path), all calls returned: %s" % (
-                              c["transport"], c["l"], c["el"], c["maxTotal"], c["maxPerPath"], c["allReturned"]), {"record": c, "cmd": "bin/check C16 --tier %s" % ctx.tier})
+                          "a real %s client connection configured with total limit %d / per-endpoint limit %d had %d requests on the wire at once (%d for one path), all calls returned: %s, limiter idle afterwards (table empty, fresh requests admitted at once): %s" % (
+                              c["transport"], c["l"], c["el"], c["maxTotal"], c["maxPerPath"], c["allReturned"], c["idle"]), {"record": c, "cmd": "bin/check C16 --tier %s" % ctx.tier})
             continue
         if clause == "K16_Conforms":
             ctx.drift.append({"clause": clause, "traces": len(ts), "first": [e["act"] for e in ts[0]["ev"]][:14]})
